@@ -54,8 +54,11 @@ SHARED = {6}        # built with DAG sharing (the two Product(x, y) are one obje
 POOL_Q = [0, 1, 2, 3, 4, 6, 7, 8, 11, 12, 13]
 # extra arguments of a call: (positional tuple, keyword items)
 ARGS = [((), ()), ((1,), ()), ((1.0,), ()), ((True,), ()), ((1, "a"), ()),
-        ((), (("k", 1),)), ((), (("k", 2),)), ((1,), (("k", 1),))]
-ARGS_Q = [((), ()), ((1,), ()), ((1.0,), ()), ((), (("k", 1),)), ((), (("k", 2),))]
+        ((), (("k", 1),)), ((), (("k", 2),)), ((1,), (("k", 1),)),
+        # the same two keyword arguments written in either order: one key
+        ((), (("k", 1), ("j", 2))), ((), (("j", 2), ("k", 1)))]
+ARGS_Q = [((), ()), ((1,), ()), ((1.0,), ()), ((), (("k", 1),)), ((), (("k", 2),)),
+          ((), (("k", 1), ("j", 2))), ((), (("j", 2), ("k", 1)))]
 
 
 def pool_obj(i):
@@ -155,11 +158,34 @@ def pairs():
                          lambda: SubstitutionMapper(make_subst_func(subst)), False),
     }
     for tag, flags in (("default", {}), ("all-off", dict(composite_leaves=False)),
-                       ("descend", dict(include_calls="descend_args", include_cses=True))):
+                       ("descend", dict(include_calls="_".join(("descend", "args")), include_cses=True))):
         out[f"dependency-{tag}"] = (
             lambda flags=flags: instrument(CachedDependencyMapper)(**flags),
             lambda flags=flags: DependencyMapper(**flags), False)
     return out
+
+
+DEP_PARAMS = ("include_subscripts", "include_lookups", "include_calls", "include_cses",
+              "composite_leaves")        # the documented positional order of DependencyMapper
+PARITY_EXPR = Sum(Sub(V("arr"), X), ("Lookup", V("obj"), ("str", "a")), Call(V("f"), Y),
+                  CSE(Prod(X, Y)), Pow(V("z"), C(2)))
+
+
+def parity_failure(vec):
+    """The memoizing class is a drop-in replacement: the same POSITIONAL constructor arguments
+    configure CachedDependencyMapper like DependencyMapper, and like the documented keywords."""
+    from pymbolic.mapper.dependency import CachedDependencyMapper, DependencyMapper
+    expr = build(PARITY_EXPR)
+    by_kw = DependencyMapper(**dict(zip(DEP_PARAMS, vec)))(expr)
+    plain = DependencyMapper(*vec)(expr)
+    cached = CachedDependencyMapper(*vec)(build(PARITY_EXPR))
+    n = {"keywords": norm_result(by_kw), "plain": norm_result(plain),
+         "cached": norm_result(cached)}
+    if len({repr(v) for v in n.values()}) != 1:
+        return (f"positional arguments {vec!r}: DependencyMapper by keyword {show_res(n['keywords'])}, "
+                f"positional {show_res(n['plain'])}, CachedDependencyMapper positional "
+                f"{show_res(n['cached'])}")
+    return None
 
 
 OPT_NAMES = ("drop_args", "drop_kwargs", "inline_rec", "inline_cache", "inline_get_cache_key")
@@ -210,13 +236,14 @@ class C05(Check):
             "(equal-but-not-identical subtrees, DAG sharing, 4 / 4.0 / True as leaves, in a tuple "
             "and at top level, one CSE wrapper twice, two user node classes over different bases "
             "that name the same unimplemented handler) and arguments from {(), (1,), (1.0,), "
-            "(True,), (1,'a'), k=1, k=2, (1, k=1)}; all histories up to the largest depth whose complete exploration "
+            "(True,), (1,'a'), k=1, k=2, (1, k=1), (k=1, j=2), (j=2, k=1)}; all histories up to the largest depth whose complete exploration "
             "fits 15k (quick) / 250k (thorough) transitions per mapper pair (depth 3-5); pairs: identity, argument-dependent renamer, leaf-counting combine, collector, "
             "walk, evaluation, substitution, dependency x 3 flag settings, and every class the "
             "optimizer produces from 5 source classes (a renamer, a flattener, a None-returning walker, "
             "two argument-keeping mappers) (32 + 32 + 32 + 4 + 4 option combinations), each "
             "in a fresh process state and after an earlier use of the optimizer with other "
-            "options. A "
+            "options; constructor parity: every prefix of every positional flag vector gives "
+            "CachedDependencyMapper, DependencyMapper and the documented keywords the same result. A "
             "state is a history with exact repeats removed; every transition replays its history "
             "on a fresh instance. Non-trivial = history of length >= 2; distinct = distinct "
             "(pair, history).")
@@ -243,12 +270,26 @@ class C05(Check):
                 for o in opt_combos(kind):
                     for poison in POISONS:
                         yield ("opt", kind, tuple(sorted(o.items())), poison)
-        return [("stock-pairs", stock), ("optimized", optimized)]
+        def parity():
+            for vec in itertools.product((True, False), (True, False),
+                                         (True, False, "descend_args"), (True, False),
+                                         (None, True, False)):
+                for n in range(1, 6):
+                    yield ("parity", vec[:n])
+        return [("stock-pairs", stock), ("optimized", optimized),
+                ("constructor-parity", parity)]
 
     def check_item(self, family, item, tier):
         r = Res()
         if item[0] == "replay":             # a recorded witness carries the tier it was found in
             tier, item = item[1], tuple(item[2])
+        if item[0] == "parity":
+            r.evals += 1
+            r.keys.append(item)
+            f = parity_failure(tuple(item[1]))
+            if f:
+                r.fail("constructor-parity", f"constructor-parity|{tuple(item[1])!r}", f)
+            return r
         if item[0] == "pair":
             make_c, make_p, takes_args = pairs()[item[1]]
             label = item[1]
